@@ -23,7 +23,7 @@ def one(args):
     try:
         tree = SourceTree.load(d)
         rep, mod = evaluate(pid, "quick", tree, skip_a3=not (a3 and pid in A3))
-        keys = [v["key"] for v in rep.violations]
+        keys = [v["key"] for v in rep.unlisted()]
         return name, ("caught" if keys else "MISSED"), keys[:3]
     except AnalysisError as e:
         return name, "ANALYSIS-ERROR", [str(e)[:150]]
